@@ -93,3 +93,40 @@ fn verif_c01_trailing_signature_not_checked() {
     }
     assert!(m0.validate().is_err());
 }
+
+// ---------------------------------------------------------------------------------------------
+// C13 replays
+// ---------------------------------------------------------------------------------------------
+// D1: a merkle proof whose index is not below its leaf count must not verify
+#[test]
+fn verif_c13_index_not_below_total() {
+    use tendermint::crypto::default::Sha256;
+    use tendermint::merkle::MerkleHash;
+    let leaf = b"a";
+    let root = Sha256::default().leaf_hash(leaf);
+    let proof = crate::MerkleProof { index: 5, total: 1, leaf_hash: root, aunts: vec![] };
+    match proof.verify(leaf, root) {
+        Ok(()) => println!("WITNESS C13/D1: MerkleProof {{ index: 5, total: 1, aunts: [] }}.verify(leaf, leaf_hash(leaf)) returns Ok although index >= total"),
+        Err(e) => println!("NO-WITNESS D1: rejected: {e}"),
+    }
+    let (p, r) = crate::MerkleProof::new(1, &[b"a", b"b"]).unwrap();
+    let forged = crate::MerkleProof { index: 3, ..p.clone() };
+    match forged.verify(b"b", r) {
+        Ok(()) => println!("WITNESS C13/D1: proof for leaf 1 of 2 re-labelled index 3 (total 2) verifies"),
+        Err(e) => println!("NO-WITNESS D1 (second form): rejected: {e}"),
+    }
+}
+
+// D2: a row span of 65536 rows (0..=65535) must not panic and must not be accepted with zero roots
+#[test]
+fn verif_c13_row_span_overflow() {
+    use celestia_proto::celestia::core::v1::proof::RowProof as RawRowProof;
+    let raw = RawRowProof { row_roots: vec![], proofs: vec![], root: vec![], start_row: 0, end_row: 65535 };
+    let proof = crate::RowProof::try_from(raw).unwrap();
+    let res = std::panic::catch_unwind(|| proof.verify(tendermint::Hash::Sha256([7u8; 32])));
+    match res {
+        Err(_) => println!("WITNESS C13/D2: RowProof {{ start_row: 0, end_row: 65535, no roots }}.verify() panics (u16 overflow in end_row - start_row + 1)"),
+        Ok(Ok(())) => println!("WITNESS C13/D2: RowProof claiming rows 0..=65535 with zero roots verifies"),
+        Ok(Err(e)) => println!("NO-WITNESS D2: rejected: {e}"),
+    }
+}
